@@ -82,9 +82,7 @@ def parseStarts (s : String) : Option (List (Nat × Option Nat)) :=
     | [a, b] => a.toNat?.map (fun a => (a, b.toNat?))
     | _ => none
 
-def run (op impl : String) : Ans :=
-  match op.splitOn " " with
-  | ["s", ka, rq, sc] =>
+def runCore (ka rq sc : String) (seg : Option String) (impl : String) : Ans :=
     match (rq.splitOn ";").mapM parseSeg, (if sc == "-" then some [] else (sc.splitOn ";").mapM parseScript) with
     | some segs, some scs =>
       let o := serve (ka == "1") segs scs
@@ -103,9 +101,19 @@ def run (op impl : String) : Ans :=
         (if segs.any (fun s => match s with | .req r => (match r.body with | .chunked _ _ => true | _ => false) | _ => false) then ["chunkedreq"] else []) ++
         (if segs.any (fun s => match s with | .req r => (match r.body with | .bad _ => true | _ => false) | _ => false) then ["badchunk"] else []) ++
         (if segs.any (fun s => match s with | .req _ => false | _ => true) then ["malformed"] else []) ++
+        (match seg with
+         | some m => ["seg-" ++ (m.take 1).toString]
+         | none => []) ++
         (if nh ≥ 2 then ["nt"] else [])
       { model := renderOut o, verdict := verdict, tags := tags }
     | _, _ => { model := "bad-op", verdict := "skip" }
+
+/-- the optional 5th field (how the client's bytes are cut into reads) does not enter the model or the
+    oracle: both are segmentation-independent -/
+def run (op impl : String) : Ans :=
+  match op.splitOn " " with
+  | ["s", ka, rq, sc] => runCore ka rq sc none impl
+  | ["s", ka, rq, sc, seg] => runCore ka rq sc (some seg) impl
   | _ => { model := "bad-op", verdict := "skip" }
 
 end BfeVerif.C28
